@@ -5,7 +5,7 @@
 (* definitions to each other (order invariance of aggregations, rounding    *)
 (* brackets, the division law of MOD, De Morgan, text decompositions), and  *)
 (* every state is an obligation replayed on the real function.              *)
-EXTENDS FnDef
+EXTENDS FnMore
 
 CONSTANTS EmitObl, Family       \* Family: which group of cases this run explores
 
@@ -43,6 +43,15 @@ Fn(fn, args) ==
        [] fn = "MROUND" -> (LET x == Coerce(s[1])  y == Coerce(s[2])
                             IN IF s[1].k = "e" THEN s[1] ELSE IF s[2].k = "e" THEN s[2]
                                ELSE IF x.k = "e" THEN x ELSE IF y.k = "e" THEN y ELSE MRound(x, y))
+       [] fn \in {"PERCENTILE", "PERCENTILE.INC", "PERCENTILE.EXC", "QUARTILE", "QUARTILE.INC",
+                  "QUARTILE.EXC"} -> Percentile(fn, args[1], args[2])
+       [] fn \in {"CEILING.MATH", "FLOOR.MATH", "CEILING.PRECISE", "FLOOR.PRECISE", "ISO.CEILING"} ->
+            CeilFloorMathCall(fn, s)
+       [] fn = "FACTDOUBLE" -> FactDouble(s[1])
+       [] fn = "MMULT" -> MMult(args[1], args[2])
+       [] fn = "MDETERM" -> MDeterm(args[1])
+       [] fn = "MUNIT" -> MUnit(s[1])
+       [] fn = "TRANSPOSE" -> Transpose(args[1])
        [] fn = "CONCAT" -> Concat(args)
        [] fn = "CONCATENATE" -> Concat(args)      \* (scalars only in the cases below)
        [] fn = "TEXTJOIN" -> TextJoin(s[1], s[2], SubSeq(args, 3, n))
@@ -115,7 +124,10 @@ LogicScalars == {D(T), D(F), D(IntV(1)), D(IntV(0)), D(IntV(2)), D(tTrue), D(tFa
 JunctionArgs == {D(T), D(F), D(IntV(1)), D(IntV(0)), D(tABC), D(tTrue), D(D0), D(S(<<48>>)),
                  Ref(<<<<T, tX>>>>), Ref(<<<<Blank, IntV(0)>>>>), Ref(<<<<tX, Blank>>>>),
                  Ref(<<<<F, NAe>>>>), Ref(<<<<T, T>>, <<IntV(3), T>>>>), Cell1(Blank),
-                 Lit(<<<<T, F>>>>), Lit(<<<<IntV(1), tX>>>>)}
+                 Lit(<<<<T, F>>>>), Lit(<<<<IntV(1), tX>>>>),
+                 \* numbers other than 0 / 1 are TRUE (not "one more TRUE per unit")
+                 D(IntV(2)), D(Num(1, 2)), D(IntV(-1)), Lit(<<<<IntV(2), IntV(0)>>>>),
+                 Ref(<<<<IntV(2), tX, T, Num(1, 2)>>>>)}
 BranchVals == {D(IntV(1)), D(tX), Cell1(Blank), D(NAe), D(F)}
 SwX == {D(IntV(1)), D(IntV(2)), D(tA), D(S(<<65>>)), D(T), D(S(<<49>>)), D(D0), Cell1(Blank), D(IntV(0))}
 LogicCases ==
@@ -284,7 +296,36 @@ ExtraCases ==
                                          y \in {IntV(3), IntV(-3), Num(1, 2), IntV(0), Num(1, 5), IntV(2)}}
 
 
+\* -- second group beyond C12's list (FnMore), also replayed for information only
+PArrs == {Ref(<<<<IntV(1), IntV(2), IntV(3), IntV(4)>>>>), Ref(<<<<IntV(7)>>, <<Num(5, 2)>>, <<IntV(-1)>>>>),
+          Ref(<<<<IntV(3), tX, Blank>>, <<T, IntV(10), IntV(1)>>>>), Lit(<<<<IntV(2), IntV(9), IntV(4), IntV(6), IntV(5)>>>>),
+          Ref(<<<<IntV(5)>>>>), Ref(<<<<tX, Blank>>>>), Ref(<<<<IntV(1), D0>>>>)}
+PKs == {IntV(0), Num(1, 4), Num(1, 3), Num(1, 2), Num(9, 10), IntV(1), Num(11, 10), Num(-1, 10), tX, NAe, S(<<48, 46, 53>>)}
+QKs == {IntV(0), IntV(1), IntV(2), IntV(3), IntV(4), IntV(5), IntV(-1), Num(5, 2), tX}
+MoreX == {Num(43, 10), Num(-43, 10), IntV(6), IntV(-6), IntV(0), Num(-5, 2), Num(5, 2), t4, tX, NAe}
+MoreS == {IntV(1), IntV(2), IntV(-2), Num(1, 2), IntV(0), Num(3, 10), tX}
+Mats == {Lit(<<<<IntV(1), IntV(2)>>, <<IntV(3), IntV(4)>>>>), Ref(<<<<IntV(2), IntV(0)>>, <<IntV(-1), Num(1, 2)>>>>),
+         Ref(<<<<IntV(1), IntV(2), IntV(3)>>, <<IntV(0), IntV(1), IntV(4)>>, <<IntV(5), IntV(6), IntV(0)>>>>),
+         Lit(<<<<IntV(1), IntV(2), IntV(3)>>>>), Ref(<<<<IntV(4)>>, <<IntV(5)>>, <<IntV(6)>>>>),
+         Ref(<<<<IntV(1), Blank>>, <<IntV(3), IntV(4)>>>>), Ref(<<<<IntV(1), tX>>, <<IntV(3), IntV(4)>>>>),
+         Ref(<<<<IntV(1), D0>>, <<IntV(3), IntV(4)>>>>), D(IntV(3)), Ref(<<<<IntV(7)>>>>),
+         Lit(<<<<IntV(0), IntV(1)>>, <<IntV(1), IntV(0)>>>>)}
+MoreCases ==
+  {Case(fn, <<a, D(k)>>) : fn \in {"PERCENTILE", "PERCENTILE.INC", "PERCENTILE.EXC"}, a \in PArrs, k \in PKs}
+  \cup {Case(fn, <<a, D(k)>>) : fn \in {"QUARTILE", "QUARTILE.INC", "QUARTILE.EXC"}, a \in PArrs, k \in QKs}
+  \cup {Case(fn, <<D(x)>>) : fn \in {"CEILING.MATH", "FLOOR.MATH", "CEILING.PRECISE", "FLOOR.PRECISE", "ISO.CEILING"},
+                              x \in MoreX}
+  \cup {Case(fn, <<D(x), D(g)>>) : fn \in {"CEILING.MATH", "FLOOR.MATH", "CEILING.PRECISE", "FLOOR.PRECISE",
+                                            "ISO.CEILING"}, x \in MoreX, g \in MoreS}
+  \cup {Case(fn, <<D(x), D(g), D(m)>>) : fn \in {"CEILING.MATH", "FLOOR.MATH"}, x \in MoreX, g \in MoreS,
+                                          m \in {IntV(0), IntV(1), IntV(-1), T, tX}}
+  \cup {Case("FACTDOUBLE", <<D(x)>>) : x \in {IntV(0), IntV(1), IntV(6), IntV(7), Num(75, 10), IntV(19), IntV(-1), tX, t4, NAe}}
+  \cup {Case("MMULT", <<a, b>>) : a \in Mats, b \in Mats}
+  \cup {Case(fn, <<a>>) : fn \in {"MDETERM", "TRANSPOSE"}, a \in Mats}
+  \cup {Case("MUNIT", <<D(x)>>) : x \in {IntV(1), IntV(2), IntV(3), Num(5, 2), IntV(0), IntV(-1), tX, t4, NAe}}
+
 Cases == CASE Family = "extra" -> ExtraCases
+           [] Family = "more" -> MoreCases
            [] Family = "lift" -> LiftCases
            [] Family = "agg" -> AggCases \cup KthCases \cup SpCases
            [] Family = "logic" -> LogicCases \cup InfoCases
@@ -306,7 +347,7 @@ Done == out # Pending /\ Family # "lift"
 
 \* ---- theorems ------------------------------------------------------------------------
 IsVal(v) == v.k \in {"n", "t", "b", "e", "approx", "any", "anyerr"}
-WellFormed == DoneAny => IF Family = "lift"
+WellFormed == DoneAny => IF Family = "lift" \/ out.k = "a"
                       THEN out.k = "a" /\ \A i \in 1..Rows(out) : \A j \in 1..Cols(out) : IsVal(out.rows[i][j])
                       ELSE IsVal(out)
 \* the lifted result has the stretched shape, and a scalar argument may as well be an array
@@ -446,6 +487,45 @@ ConcatLen == (TextScalars /\ c.fn = "CONCAT") =>
 TextJoinLaw ==     \* with an empty delimiter and nothing ignored TEXTJOIN is CONCAT
   (Done /\ c.fn = "TEXTJOIN" /\ Scalar(c.args[1]) = tEmpty /\ Scalar(c.args[2]) = F) =>
      out = Fn("CONCAT", SubSeq(c.args, 3, Len(c.args)))
+
+\* ---- laws of the FnMore group ------------------------------------------------------
+PctName == {"PERCENTILE", "PERCENTILE.INC", "PERCENTILE.EXC", "QUARTILE", "QUARTILE.INC", "QUARTILE.EXC"}
+PercentileBracket ==     \* a percentile lies between the extremes, and is monotone in k
+  (Done /\ c.fn \in PctName /\ out.k = "n") =>
+     /\ NCmp(Fn("MIN", <<c.args[1]>>), out) <= 0 /\ NCmp(out, Fn("MAX", <<c.args[1]>>)) <= 0
+     /\ \A k2 \in (IF c.fn \in {"PERCENTILE", "PERCENTILE.INC", "PERCENTILE.EXC"} THEN PKs ELSE QKs) :
+           LET o2 == Fn(c.fn, <<c.args[1], D(k2)>>)
+           IN (o2.k = "n" /\ k2.k = "n" /\ Scalar(c.args[2]).k = "n" /\ NCmp(k2, Scalar(c.args[2])) >= 0)
+                 => NCmp(o2, out) >= 0
+PercentileEnds ==        \* k = 0, 1/2, 1 are MIN, MEDIAN, MAX; quartiles are percentiles
+  /\ (Done /\ c.fn = "PERCENTILE.INC" /\ out.k = "n" /\ Scalar(c.args[2]) = IntV(0)) => out = Fn("MIN", <<c.args[1]>>)
+  /\ (Done /\ c.fn = "PERCENTILE.INC" /\ out.k = "n" /\ Scalar(c.args[2]) = IntV(1)) => out = Fn("MAX", <<c.args[1]>>)
+  /\ (Done /\ c.fn \in {"PERCENTILE.INC", "PERCENTILE.EXC"} /\ out.k = "n" /\ Scalar(c.args[2]) = Num(1, 2)) =>
+        out = Fn("MEDIAN", <<c.args[1]>>)
+  /\ (Done /\ c.fn = "QUARTILE.INC" /\ out.k = "n" /\ Scalar(c.args[2]).k = "n") =>
+        out = Fn("PERCENTILE.INC", <<c.args[1], D(Num(NTrunc(Scalar(c.args[2])).n, 4))>>)
+  /\ (Done /\ c.fn = "PERCENTILE") => out = Fn("PERCENTILE.INC", c.args)
+CfmName == {"CEILING.MATH", "FLOOR.MATH", "CEILING.PRECISE", "FLOOR.PRECISE", "ISO.CEILING"}
+CeilFloorMathLaw ==      \* a multiple of the significance, less than one significance away, on the stated side
+  (Done /\ c.fn \in CfmName /\ out.k = "n" /\ Len(c.args) >= 2) =>
+     LET x == Coerce(Scalar(c.args[1]))   g == NAbs(Coerce(Scalar(c.args[2])))
+         m == IF Len(c.args) = 3 THEN Coerce(Scalar(c.args[3])) ELSE Zero
+         ceil == c.fn \in {"CEILING.MATH", "CEILING.PRECISE", "ISO.CEILING"}
+         turned == Len(c.args) = 3 /\ m.n # 0 /\ x.n < 0
+     IN g.n # 0 =>
+          /\ NIsInt(NDiv(out, g))
+          /\ NCmp(NAbs(NSub(out, x)), g) < 0
+          /\ (IF ceil # turned THEN NCmp(out, x) >= 0 ELSE NCmp(out, x) <= 0)
+IsNumMat(a) == MatErr(AsMat(a)).k = "skip"
+MatrixLaws ==
+  /\ (Done /\ c.fn = "MMULT" /\ out.k = "a") =>       \* shape, identity, determinant of a product
+        /\ Rows(out) = Rows(AsMat(c.args[1])) /\ Cols(out) = Cols(AsMat(c.args[2]))
+        /\ MMult(c.args[1], [f |-> "a", v |-> MUnit(IntV(Cols(AsMat(c.args[1]))))]) = AsMat(c.args[1])
+        /\ (Rows(out) = Cols(out) /\ Rows(AsMat(c.args[1])) = Cols(AsMat(c.args[1]))) =>
+              MDeterm([f |-> "a", v |-> out]) = NMul(MDeterm(c.args[1]), MDeterm(c.args[2]))
+  /\ (Done /\ c.fn = "MDETERM" /\ out.k = "n") =>
+        out = MDeterm([f |-> "a", v |-> Transpose(c.args[1])])
+  /\ (Done /\ c.fn = "TRANSPOSE") => Transpose([f |-> "a", v |-> out]) = Transpose([f |-> "a", v |-> Transpose(c.args[1])])
 
 Obl == (EmitObl /\ DoneAny) => PrintT("OBL " \o ToJson([fn |-> c.fn, args |-> c.args, exp |-> out]))
 =============================================================================
